@@ -1016,12 +1016,16 @@ def load(odffile):
         elif mentry in (u'settings.xml', u'meta.xml', u'content.xml', u'styles.xml'):
             pass
         # Load subobjects into structure
-        elif mentry[:7] == u"Object " and len(mentry) < 11 and mentry[-1] == u"/":
+        elif mentry[:7] == u"Object " and mentry[-1] == u"/" and \
+                (mentry + u"content.xml" in manifest or mentry + u"styles.xml" in manifest):
+            # an embedded object: whatever its number, at any nesting depth
             subdoc = OpenDocument(mvalue['media-type'], add_generator=False)
             doc.addObject(subdoc, u"/" + mentry[:-1])
             __loadxmlparts(z, manifest, subdoc, mentry)
-        elif mentry[:7] == u"Object ":
-            pass # Don't load subobjects as opaque objects
+        elif mentry[:7] == u"Object " and u"/" in mentry and \
+                mentry.rsplit(u"/", 1)[1] in (u'settings.xml', u'meta.xml', u'content.xml', u'styles.xml') and \
+                mentry.rsplit(u"/", 1)[0] + u"/" in manifest:
+            pass # the XML parts of an embedded object are loaded with the object
         else:
             if mvalue['full-path'][-1] == u'/':
                 doc._extra.append(OpaqueObject(mvalue['full-path'], mvalue['media-type'], None))
